@@ -1112,9 +1112,29 @@ def check_results_report_obligations(fnode):
             arg = c.args[0] if len(c.args) == 1 else None
             ok = isinstance(arg, _ast.List) and len(arg.elts) == 2 and _ast.unparse(arg.elts[0]) in ("%s + imin" % lv, "imin + %s" % lv) and _ast.unparse(arg.elts[1]) == "all_fun[%s]" % lv
             out.append(("line %d: the record is [local index + imin, the function's string] (`%s`)" % (c.lineno, _ast.unparse(arg) if arg is not None else "?"), bool(ok), c.lineno))
-    # nothing between the offset region and the append rebinds imin
-    rebind = [n.lineno for n in _ast.walk(loop) if isinstance(n, _ast.Name) and isinstance(n.ctx, _ast.Store) and n.id == "imin"]
-    out.append(("imin is not changed inside the loop", not rebind, loop.lineno))
+    # frame of the loop body: the re-substitution test may raise anywhere (sympy errors, the timeout); what the handler reports must still be the function the
+    # iteration started with -- the loop index, imin, the rank's function list and to_change itself are not rebound or modified by anything but the reporting append
+    body_nodes = [n for st_ in loop.body for n in _ast.walk(st_)]
+    rebind = sorted({(n.id, n.lineno) for n in body_nodes if isinstance(n, _ast.Name) and isinstance(n.ctx, (_ast.Store, _ast.Del)) and n.id in ("imin", lv, "all_fun", "to_change")})
+    out.append(("the loop body rebinds neither the loop index, imin, all_fun nor to_change%s" % ((" (found %s)" % rebind) if rebind else ""), not rebind, loop.lineno))
+    mut = []
+    for n in body_nodes:
+        if isinstance(n, _ast.Subscript) and isinstance(n.ctx, (_ast.Store, _ast.Del)) and isinstance(n.value, _ast.Name) and n.value.id in ("all_fun", "to_change"):
+            mut.append((n.value.id, n.lineno))
+        if isinstance(n, _ast.Call) and isinstance(n.func, _ast.Attribute) and isinstance(n.func.value, _ast.Name) and n.func.value.id in ("all_fun", "to_change") and \
+                n.func.attr in ("pop", "remove", "insert", "extend", "clear", "sort", "reverse") :
+            mut.append((n.func.value.id, n.lineno))
+    out.append(("inside the loop all_fun is only read and to_change only grows by the reporting append%s" % ((" (found %s)" % mut) if mut else ""), not mut, loop.lineno))
+    # every path that fails the test ends in the reporting handler: the try statement of the body has one handler, it catches Exception (or everything) and it appends
+    tries = [t for t in loop.body if isinstance(t, _ast.Try)]
+    ok_try = False
+    for t in tries:
+        for h in t.handlers:
+            catches_all = h.type is None or (isinstance(h.type, _ast.Name) and h.type.id in ("Exception", "BaseException"))
+            appends = any(isinstance(c, _ast.Call) and getattr(c.func, "attr", None) == "append" and getattr(c.func.value, "id", None) == "to_change" for b in h.body for c in _ast.walk(b))
+            if catches_all and appends and h is t.handlers[0]:
+                ok_try = True
+    out.append(("a failing re-substitution test (any exception, the timeout included) is reported: the first handler of the loop body's try catches Exception and appends the record", ok_try, loop.lineno))
     back = [n for n in _ast.walk(fnode) if isinstance(n, _ast.Assign) and _ast.unparse(n.targets[0]) == "r[0]" and _ast.unparse(n.value) == "shufidx[r[0]]"]
     out.append(("the gathered positions of the shuffled list are mapped back to positions of the library (`r[0] = shufidx[r[0]]`)", len(back) == 1, back[0].lineno if back else fnode.lineno))
     return out
